@@ -24,9 +24,12 @@ PrefixBytes ==
     [] Prefix = "value"   -> <<115, cEQ>>                         \* s=
     [] Prefix = "dqenv"   -> <<115, cEQ, cDQ, cDOLLAR, cLB>>      \* s="${ ... }"
     [] Prefix = "env"     -> <<115, cEQ, cDOLLAR, cLB>>           \* s=${ ... }
+    (* an unquoted reference after a quoted string and a comment were scanned: l={"qq"} /*q*/ s=${ ... } *)
+    [] Prefix = "envafter" -> <<108, cEQ, cLB, cDQ, 113, 113, cDQ, cRB, cSP, cSLASH, cSTAR, 113, cSTAR, cSLASH, cSP, 115, cEQ, cDOLLAR, cLB>>
 SuffixBytes ==
   CASE Prefix = "dqenv" -> <<cRB, cDQ>>
     [] Prefix = "env"   -> <<cRB>>
+    [] Prefix = "envafter" -> <<cRB>>
     [] OTHER            -> <<>>
 LitStart == 4     \* position of the first byte of the literal body in Text (dq / sq)
 
@@ -35,6 +38,7 @@ AlphaSet ==
   CASE Alpha = "dq"  -> {cBS, cDQ, cNL, cDOLLAR, cLB, cRB, cCOLON, cMINUS, 49, 51, 55, 56, 120, 110, 97, 86, 85, 113}
     [] Alpha = "octal" -> {cBS, cDQ, 49, 51, 55, 56}                 \* \ " 1 3 7 8
     [] Alpha = "octal6" -> {cBS, cDQ, 49, 51, 56}                    \* \ " 1 3 8 : digit runs of four and more, closed
+    [] Alpha = "slashbs" -> {cSLASH, cBS, 113, cSP, cNL}          \* a line comment that ends in a backslash, then more text
     [] Alpha = "slash" -> {cSLASH, cHASH, cSTAR, 113, cSP, cNL, cDQ, cEQ, cBS}   \* (a backslash at the end of a line comment is just a character)
     [] Alpha = "envbody" -> {86, 85, 69, 113, cCOLON, cMINUS, cDOLLAR, cNL}  \* V U E q : - $ and a line end (a reference may span lines)
     [] Alpha = "dqlines" -> {cBS, cDQ, cNL, cSP, 113, cHASH, 13}                  \* (13 = CR: only backslash + LF joins lines)
